@@ -55,6 +55,12 @@ U5(h) == \A j \in Idx(h, "New") : \A i \in Idx(h, "New") :
             (i < j /\ h[i].c = h[j].c) =>
                \E k \in (i+1)..(j-1) : (IsE(h[k], "End") \/ IsE(h[k], "Closed") \/ IsE(h[k], "Idle")) /\ h[k].a = h[i].a
 
+\* U6: once things have settled after an association ended ("Settled", a marker of the harness), every datagram
+\*     the socket hands to the server is delivered to some association: the loop is not blocked and no dead
+\*     association swallows datagrams
+U6(h) == \A s \in Idx(h, "Settled") : \A i \in Idx(h, "DgIn") :
+            i > s => \E j \in Idx(h, "Dlv") : h[j].c = h[i].c /\ h[j].seq = h[i].seq
+
 UdpViolations(h, complete) ==
   (IF U0(h) THEN {} ELSE {"U0 the server loop crashed"})
   \cup (IF U0b(h) THEN {} ELSE {"U0b activity of an unannounced association"})
@@ -63,5 +69,6 @@ UdpViolations(h, complete) ==
   \cup (IF U2b(h) THEN {} ELSE {"U2b one datagram delivered to two connections"})
   \cup (IF U3(h) THEN {} ELSE {"U3 a reply went to another client's address"})
   \cup (IF ~complete \/ U4(h) THEN {} ELSE {"U4 a datagram arriving after its association closed was not served by a fresh one"})
+  \cup (IF ~complete \/ U6(h) THEN {} ELSE {"U6 a datagram arriving after things had settled was not delivered to any association"})
   \cup (IF U5(h) THEN {} ELSE {"U5 a second virtual connection was started for a client whose connection was still alive"})
 =============================================================================
